@@ -698,3 +698,11 @@ rename("C06", TERMS, "SliceMeta.__call__")
 
 fire("c15-scalar-log-zero-gives-zero", "C15", BUILTIN,
      "    return math.log(x) if x > 0 else -math.inf", "    return math.log(x) if x > 0 else 0.0", "R15.10", "log")
+
+silent("c18-s-lower-contraction-balanced-fold-correct", "C18", COMPILER,
+       "    return functools.reduce(bin_op, terms)",
+       "    while len(terms) > 1:\n        if len(terms) % 2:\n            last = terms.pop()\n            terms[-1] = bin_op(terms[-1], last)\n        terms = [bin_op(lhs, rhs) for lhs, rhs in zip(terms[0::2], terms[1::2])]\n    return terms[0]")
+fire("c18-lower-contraction-balanced-fold-loses-spare", "C18", COMPILER,
+     "    return functools.reduce(bin_op, terms)",
+     "    spare = None\n    while len(terms) > 1:\n        if len(terms) % 2:\n            spare = terms.pop()\n        terms = [bin_op(lhs, rhs) for lhs, rhs in zip(terms[0::2], terms[1::2])]\n    result = terms[0]\n    if spare is not None:\n        result = bin_op(result, spare)\n    return result",
+     "R18.8", "_lower_contraction")
